@@ -27,7 +27,7 @@ ViewClauses(r) ==
                                                  /\ \A i \in Rows(A) : r.s[i + 1] = S4(At(A, i, i))
                                                  /\ r.vs = [i \in 1..A.n |-> r.s[i] * r.vx[i]])
               [] OTHER                  -> wf /\ SameOperator(r.out, A)
-    IN  <<  <<"wellformed", wf>>,
+    IN  <<  <<"wellformed", wf /\ (Has(r, "enumeration_sane") => r.enumeration_sane)>>,
             <<"rows/cols/nonzeros agree with the source", r.rows = A.n /\ r.cols = A.m /\ r.nnz = NNZ(A)>>,
             <<"view is the same operator", exp>>,
             <<"generic CRS constructor = row iteration", r.ctor_same>>,
